@@ -186,6 +186,51 @@ def run(ctx):
                                 "the list-comprehension variable %r is also a variable of the enclosing function: on Python 2.7 the "
                                 "comprehension overwrites it (comprehension variables leak), on Python 3 it does not" % t,
                             )
+    # Python 2: text is `unicode`, not `str` (every module imports unicode_literals, json and the
+    # library's own results are unicode): a type test against str alone splits the interpreters
+    if py2:
+        n_types = 0
+        for name, m in sorted(ctx.repo.modules.items()):
+            for n in ast.walk(m.tree):
+                tested = None
+                if isinstance(n, ast.Call) and isinstance(n.func, ast.Name) and n.func.id == "isinstance" and len(n.args) == 2:
+                    tested = n.args[1]
+                elif isinstance(n, ast.Compare) and isinstance(n.left, ast.Call) and isinstance(n.left.func, ast.Name) and n.left.func.id == "type" and len(n.comparators) == 1:
+                    tested = n.comparators[0]
+                if tested is None:
+                    continue
+                n_types += 1
+                alts = set(x.id for x in ast.walk(tested) if isinstance(x, ast.Name))
+                if alts & {"str", "bytes"} and not (alts & {"unicode", "basestring", "string_types", "text_type"}):
+                    led.violation(
+                        "C20.types",
+                        "%s::%s" % (name, short(n)),
+                        m.where(n),
+                        "type test against %s only: on Python 2.7 text values are `unicode` (unicode_literals, json, the library's own "
+                        "results), so the test gives a different answer there than on Python 3" % sorted(alts & {"str", "bytes"}),
+                    )
+        led.ok("C20.types", "type-test census", "cvss/", "%d isinstance()/type() tests, none against str/bytes alone" % n_types)
+    # json.dumps(indent=...) without separators=: the default item separator is ", " on Python 2.7
+    # (and 3.0-3.3) and "," from 3.4 on, so the printed text has trailing blanks on 2.7 only
+    n_json = 0
+    for name, m in sorted(ctx.repo.modules.items()):
+        for n in ast.walk(m.tree):
+            if isinstance(n, ast.Call) and isinstance(n.func, ast.Attribute) and n.func.attr in ("dumps", "dump"):
+                if ctx.ce.ext_name(m, n.func) not in ("json.dumps", "json.dump"):
+                    continue
+                n_json += 1
+                kws = dict((kw.arg, kw.value) for kw in n.keywords)
+                indented = "indent" in kws and not (isinstance(kws["indent"], ast.Constant) and kws["indent"].value is None)
+                if py2:
+                    led.check(
+                        not indented or "separators" in kws,
+                        "C20.json",
+                        "%s::%s" % (name, short(n)),
+                        m.where(n),
+                        "json.%s(indent=...) without separators=: Python 2.7 writes ', ' + newline between items (trailing blank), "
+                        "Python 3.4+ writes ',' + newline, so the output text differs between the declared interpreters" % n.func.attr,
+                    )
+    led.count("json_dump_sites", n_json)
     led.ok("C20.names", "API census", "cvss/", "%d call/attribute sites checked against the availability tables" % n_calls)
     # fallbacks present
     inter = ctx.repo.module("interactive")
@@ -200,7 +245,7 @@ def run(ctx):
         for n in ast.walk(m.tree):
             if isinstance(n, ast.BinOp) and isinstance(n.op, ast.Div):
                 n_div += 1
-                if literal_int(n.left) and literal_int(n.right) and not cen.has_division and py2:
+                if int_typed(ctx, m, n.left) and int_typed(ctx, m, n.right) and not cen.has_division and py2:
                     led.violation("C20.division", "%s::%s" % (name, short(n)), m.where(n), "int / int floors on Python 2.7 and is true division on Python 3")
             if isinstance(n, ast.Call) and isinstance(n.func, ast.Name) and n.func.id == "round":
                 led.violation("C20.division", "%s::%s" % (name, short(n)), m.where(n), "round() rounds half away from zero on 2.7 and half to even on 3.x")
@@ -299,6 +344,42 @@ def run(ctx):
     led.require_min("C20.syntax", n_nodes, 5000, "AST nodes censused")
     led.require_min("C20.order", n_order, 3, "plain-dict-order obligations")
     led.undecided("C20.runtime", "equality of results across nine runtimes in general (needs execution); Python 2 byte strings with non-ASCII bytes")
+
+
+def int_typed(ctx, m, n, depth=0):
+    """Is the expression an int on every interpreter (so that `/` floors on Python 2.7)?  Literal
+    ints, len()/int()/ord(), int arithmetic closed under + - * // %, int ** non-negative int, and
+    names of module-level constants that fold to an int."""
+    if depth > 6:
+        return False
+    if literal_int(n):
+        return True
+    if isinstance(n, ast.UnaryOp) and isinstance(n.op, (ast.USub, ast.UAdd)):
+        return int_typed(ctx, m, n.operand, depth + 1)
+    if isinstance(n, ast.BinOp):
+        if isinstance(n.op, (ast.Add, ast.Sub, ast.Mult, ast.FloorDiv, ast.Mod)):
+            return int_typed(ctx, m, n.left, depth + 1) and int_typed(ctx, m, n.right, depth + 1)
+        if isinstance(n.op, ast.Pow) and int_typed(ctx, m, n.left, depth + 1):
+            e = n.right
+            return isinstance(e, ast.Constant) and isinstance(e.value, int) and not isinstance(e.value, bool) and e.value >= 0
+        return False
+    if isinstance(n, ast.Name):
+        r = ctx.repo.resolve_global(m, n.id)
+        fn = m.enclosing_function(n)
+        shadowed = False
+        while fn is not None and not shadowed:
+            a = fn.args
+            names = set(x.arg for x in a.posonlyargs + a.args + a.kwonlyargs) | set(x.arg for x in (a.vararg, a.kwarg) if x)
+            names |= set(x.id for x in ast.walk(fn) if isinstance(x, ast.Name) and isinstance(x.ctx, ast.Store))
+            shadowed = n.id in names
+            fn = m.enclosing_function(fn)
+        if r is not None and r[0] == "value" and not shadowed:
+            try:
+                v = ctx.ce.eval(r[1], r[2], "C20.division")
+            except AnalysisError:
+                return False
+            return isinstance(v, int) and not isinstance(v, bool)
+    return False
 
 
 def literal_int(n):
